@@ -4,6 +4,7 @@ package gen
 import (
 	"encoding/json"
 	"fmt"
+	"math"
 	"math/rand"
 	"sort"
 )
@@ -188,6 +189,13 @@ func Directed(s S) []any {
 			add(lift(m / 2))
 			add(lift(-m))
 			add(lift(0.0))
+			if m == math.Trunc(m) && m > 0 {
+				// exact multiples whose quotient is at and beyond 2^63 and 2^64
+				add(lift(m * 9223372036854775808.0))
+				add(lift(m * 18446744073709551616.0))
+				add(lift(-m * 9223372036854775808.0))
+				add(lift(m * 1e19))
+			}
 		}
 		strOf := func(n int) string {
 			b := make([]byte, n)
